@@ -72,6 +72,9 @@ func main() {
 				fmt.Println(o.Script)
 			}
 		}
+		if *dump != "" {
+			continue
+		}
 		fmt.Printf("%s: %d paths (%d/%d return paths feasible), %d/%d obligations discharged\n", k, res.Paths, res.FeasibleReturns, res.ReturnPaths, nd, len(res.Obligations))
 		for _, o := range res.Obligations {
 			if o.Status == "discharged" && o.Time > 2 && !*verbose {
